@@ -85,7 +85,10 @@ def _time():
 
 
 def _extra():
-    return st.dictionaries(st.sampled_from(["qos", "account", "constraint", "foo"]), st.sampled_from(["a", "b", 1, 2]), max_size=2)
+    # keys include the flag names to_slurm_options uses for the quantities themselves (a user passing e.g. an extra
+    # --gres besides gpus): the quantity must still be mentioned
+    keys = ["qos", "account", "constraint", "foo", "qos", "account", "gres", "mem", "time", "partition", "cpus-per-task", "nodes"]
+    return st.dictionaries(st.sampled_from(keys), st.sampled_from(["a", "b", 1, 2]), max_size=2)
 
 
 @st.composite
